@@ -236,6 +236,16 @@ def pat_tests(subject, pt):
     return [("cond", ("matches-opaque", s, pt), True)]
 
 
+def negate(ts):
+    """the fact that the conjunction ts does not hold (a single opaque condition just flips its polarity)"""
+    ts = tuple(ts)
+    if len(ts) == 1 and ts[0][0] == "cond":
+        return ("cond", ts[0][1], not ts[0][2])
+    if len(ts) == 1 and ts[0][0] == "not" and len(ts[0][1]) == 1:
+        return ts[0][1][0]
+    return ("not", ts)
+
+
 def cond_tests(c, pol):
     """facts that hold when condition term c evaluates to pol"""
     if isinstance(c, tuple) and c:
@@ -282,6 +292,10 @@ def cond_tests(c, pol):
                 if r == []:
                     return False
                 return [] if r is False else [("not", tuple(r))]
+        if c[0] == "bin" and c[1] in ("Eq", "Ne"):
+            # comparison of two opaque values: one spelling (== with ordered operands)
+            a, b = sorted((norm(strip_acc(c[2])), norm(strip_acc(c[3]))), key=repr)
+            return [("cond", ("bin", "Eq", a, b), pol if c[1] == "Eq" else not pol)]
         if c[0] == "bin" and c[1] in ("And", "BitAnd") and pol:
             a, b = cond_tests(c[2], True), cond_tests(c[3], True)
             return False if a is False or b is False else a + b
@@ -385,20 +399,24 @@ def _leaves(t, tests, out, limit):
                 out.append((ts2, _bool_op(conj, a, b)))
         return
     if k == "returns":
+        earlier = []   # an exit further down is reached only when the earlier ones were not taken
         for conds, v in t[1]:
             if conds == ("fallthrough",):
-                _leaves(v, tests, out, limit)
+                _leaves(v, tests + earlier, out, limit)
                 continue
-            ts = list(tests)
+            own = []
             dead = False
             for c, pol in conds:
                 r = cond_tests(c, pol)
                 if r is False:
                     dead = True
                     break
-                ts += r
+                own += r
             if not dead:
-                _leaves(v, ts, out, limit)
+                _leaves(v, tests + earlier + own, out, limit)
+                if not own:
+                    return   # an unconditional exit
+                earlier = earlier + [negate(own)]
         return
     if k == "never":
         return
